@@ -143,7 +143,9 @@ class _FileTracker:
 
             def cb(code, off):
                 fn = code.co_filename
-                if fn.startswith(root):
+                # functions only (CO_NEWLOCALS): importing a module or building a class body is not "executing its code under
+                # contract", and would make every unit depend on every file of the package
+                if (code.co_flags & 0x2) and fn.startswith(root):
                     self.files.add(fn)
                 return mon.DISABLE
             mon.register_callback(self.tool, mon.events.PY_START, cb)
